@@ -46,6 +46,10 @@ HISTORIES = {
                                    ["EXPUNGE", "@deliver inbox 1", "NOOP", "STORE 1:* +FLAGS (kw1)"]),
     "pack": (["@start"] + [app("inbox", i) for i in range(1, 7)] + ["SELECT inbox", "STORE 1:4 +FLAGS (\\Deleted)", "EXPUNGE"],
              ["@poll", app("inbox", 9), "STORE 1 +FLAGS (\\Answered)"]),
+    # a flag is taken off the last message that carried it (its sequence becomes empty), set again, cleared with an empty list
+    "flag_last_holder": (["@start", app("inbox", 1), app("inbox", 2), app("inbox", 3, "(\\Seen)"), "SELECT inbox"],
+                         ["STORE 2 +FLAGS (\\Flagged kw1)", "STORE 2 -FLAGS (\\Flagged)", "NOOP", "STORE 3 +FLAGS (\\Deleted)",
+                          "STORE 3 -FLAGS (\\Deleted)", "STORE 2 +FLAGS (\\Flagged)", "STORE 2 FLAGS ()", "STORE 3 -FLAGS (\\Seen)", "NOOP"]),
     "namespace": (["@start", "CREATE aa/bb", app("aa/bb", 1), app("aa", 2), "SUBSCRIBE aa"],
                   ["RENAME aa/bb cc", "DELETE aa", "CREATE aa", "RENAME inbox old", app("cc", 3), "DELETE cc"]),
 }
@@ -290,8 +294,22 @@ def recover_and_check(root, ledger_path, deliver_after_crash):
                 problems.append(f"{box}: acknowledged message (content {cid}, UID {uid}) is missing after the restart")
         if now["vv"] == st["vv"]:
             nowf = {uid: fl for uid, _, fl in now["msgs"]}
+            # the command that was in flight may or may not have changed the flags of the messages IT addresses;
+            # every other message keeps its acknowledged flags
+            touched = None
+            ms = re.match(r"(UID )?(STORE|FETCH) ([0-9:*,]+) ", inflight or "")
+            if ms:
+                uids_here = [u for u, _, _ in st["msgs"]]
+                top = (uids_here[-1] if uids_here else 0) if ms.group(1) else len(uids_here)
+                nums = set()
+                for part in ms.group(3).split(","):
+                    ab = [top if x == "*" else int(x) for x in part.split(":")]
+                    nums.update(range(min(ab), max(ab) + 1))
+                touched = {u for u in uids_here if u in nums} if ms.group(1) else \
+                    {uids_here[i - 1] for i in nums if 1 <= i <= len(uids_here)}
             for uid, cid, fl in st["msgs"]:
-                if uid in nowf and nowf[uid] != fl and not flagging:
+                exempt = flagging and (touched is None or uid in touched)
+                if uid in nowf and nowf[uid] != fl and not exempt:
                     problems.append(f"{box}: acknowledged flags of UID {uid} were {fl} and are {nowf[uid]} after the restart")
         ever = {c for r in acked for b2, s2 in r["state"].items() if b2 == box for _, c, _ in s2["msgs"]}
         gone = ever - {cid for _, cid, _ in st["msgs"]}
